@@ -98,18 +98,21 @@ def run_e3(res, tier):
 
 def run(tier):
     res = core.Result("C05", tier)
-    out = e4.run_suite("merge", tier)
-    n = out["tuples"] + out["extra_long_cases"]
-    res.add(states=n, transitions=n, traces=n, evaluations=n)
-    res.nontrivial = set(range(out["nontrivial"]))
-    res.outcome(("panicked", out["panicked"] > 0))
-    res.outcome(("clean", out["tuples"] - out["panicked"] > 0))
-    for v in out["violations"]:
-        res.violation({"kind": "merge", "lists": v["lists"], "panicked": v["panicked"], "overlap": v["overlap"],
-                       "what": "assert_no_intersection(%s): panicked=%s but lists %s" % (v["lists"], v["panicked"], "overlap" if v["overlap"] else "are disjoint")})
-    res.sample(out["sample"])
-    res.parts = {"merge_tuples_per_parts": out["per_parts"], "merge_alphabet": out["alphabet"], "merge_overlapping": out["overlapping"],
-                 "merge_long_cases": out["extra_long_cases"]}
+    out = e4.run_suite_into(res, "merge", tier)
+    if out is not None:
+        n = out["tuples"] + out["extra_long_cases"]
+        res.add(states=n, transitions=n, traces=n, evaluations=n)
+        res.nontrivial = set(range(out["nontrivial"]))
+        res.outcome(("panicked", out["panicked"] > 0))
+        res.outcome(("clean", out["tuples"] - out["panicked"] > 0))
+        for v in out["violations"]:
+            res.violation({"kind": "merge", "lists": v["lists"], "panicked": v["panicked"], "overlap": v["overlap"],
+                           "what": "assert_no_intersection(%s): panicked=%s but lists %s" % (v["lists"], v["panicked"], "overlap" if v["overlap"] else "are disjoint")})
+        res.sample(out["sample"])
+        res.parts = {"merge_tuples_per_parts": out["per_parts"], "merge_alphabet": out["alphabet"], "merge_overlapping": out["overlapping"],
+                     "merge_long_cases": out["extra_long_cases"]}
+    else:
+        out = e4.stub()
     run_e3(res, tier)
     c03.run_e1(res, tier)
     res.cov["rule"] = ("E4: every tuple of 1..%d lists, each list any subset (in sorted order) of a 6-string alphabet chosen to stress ordering ('', a, a1, a_b, ab, b), "
